@@ -19,8 +19,8 @@ COMPONENTS = {"real": ["Atoms.load / load_cml", "xml.etree.ElementTree (real par
               "oracle_only": ["mofsim.readers.write_cml (independent writer of the document; the generator's own atom/bond lists are the truth)"]}
 ASSUMPTIONS = ["bonds are compared as a multiset of unordered atom pairs (listing order and orientation inside a bond are not judged)",
                "numeric bond orders only (Avogadro writes 1/2/3)"]
-NRUNS = {"quick": 1200, "thorough": 30000}
-MUST_REACH = ["documents_without_bonds", "id_scheme_shuffled", "id_scheme_strings", "fs_short_reads", "path_loads"]
+NRUNS = {"quick": 8000, "thorough": 100000}
+MUST_REACH = ["documents_without_bonds", "id_scheme_shuffled", "id_scheme_strings", "fs_short_reads", "path_loads", "faults_fired"]
 
 ELS = ["H", "C", "N", "O", "F", "S", "Cl", "Zr", "Cu", "Hf", "Zn"]
 
@@ -59,6 +59,7 @@ def generate(rng, tier):
     if rng.random() < 0.5:
         rng.shuffle(order)
     return {"seed": rng.getrandbits(31), "atoms": atoms, "bonds": bonds if bmode != "absent" else None, "scheme": scheme, "attr_order": order,
+            "read_fault": rng.random() if rng.random() < 0.25 else None,
             "extra_ws": rng.random() < 0.3, "declaration": rng.random() < 0.3, "extras": rng.random() < 0.3,
             "chunks": [{"chunk": c, "seed": rng.getrandbits(16)} for c in rng.sample(["whole", "one", "prime", "random", "random"], 3)]}
 
@@ -117,6 +118,21 @@ def execute(spec, ctx):
         a = _load(ctx, how, (lambda: Atoms.load(fh, filetype="cml")) if k % 2 == 0 else (lambda: Atoms.load_cml(fh)))
         _check(ctx, a, spec, how)
         ctx.count("stream_loads")
+    if spec.get("read_fault") is not None:
+        # injected read error in the middle of the document: it must surface (ElementTree would otherwise parse a prefix)
+        nreads = max(1, len(text) // 7)
+        k = 1 + int(spec["read_fault"] * nreads)
+        fh = fs.reader(text, name="doc.cml", script={"chunk": "prime", "eio_at_read": k})
+        fired0 = fs.stats.get("eio_read_fired", 0)
+        try:
+            a = Atoms.load(fh, filetype="cml")
+        except Exception:
+            a = None
+            ctx.count("read_faults_surfaced")
+        if fs.stats.get("eio_read_fired", 0) > fired0:
+            ctx.count("faults_fired")
+            if a is not None:
+                raise Violation("c16:read-error-swallowed", "the stream reported EIO on read %d but the loader returned a molecule" % k, site="load_cml")
     d = tempfile.mkdtemp(prefix="mofsim-c16-")
     try:
         path = os.path.join(d, "doc.cml")
